@@ -119,6 +119,10 @@ func (st *state) exec(op string) (res string) {
 		return "ev=" + ev(st.p.Clear())
 	case "ast":
 		return astFacts()
+	case "trace", "cachelen":
+		// an observed history of the real code (session tier): the line IS the implementation's behaviour,
+		// the specification judges it
+		return "accept"
 	}
 	return "bad-op"
 }
@@ -373,5 +377,6 @@ func main() {
 			rec(nil, 4, cp)
 		}
 	}
+	sessionTier(r, out, path, mult)
 	out.Close(nil)
 }
